@@ -423,6 +423,28 @@ def verify_contract(c: Contract, *, only_case=None):
         eng.axiom_opts = dict(c.axiom_opts)
 
         def harness(e, case=case):
+            from . import frame
+            frame.reset()           # every path starts from the state the modules were loaded with
+            e.sym_rename = None
+            if not invoke_and_check(e, case, ""):
+                return
+            wr = frame.written()
+            if wr:
+                # HISTORY: the call wrote module-level state (a cache).  A contract is about every call, not only the first
+                # one after import: the function is called again in the state the first call left behind -- once with
+                # other real-valued inputs (sizes kept: a key made of the sizes alone hits), once with other sizes
+                # (real inputs kept) -- and must still meet its post-condition.
+                e.assumptions_used.add(f"module-level state written by {c.qualname}: {', '.join(wr)} -- later calls checked in that state")
+                for rename, tag in (({"real": "~2", "int": ""}, "second call, other real-valued inputs"),
+                                    ({"real": "", "int": "~3"}, "third call, other sizes")):
+                    e.sym_rename = rename
+                    try:
+                        if not invoke_and_check(e, case, f"[{tag}, after a first call that wrote {', '.join(wr)}] "):
+                            return
+                    finally:
+                        e.sym_rename = None
+
+        def invoke_and_check(e, case, tag):
             built = case.build(e)
             ctx = {}
             if isinstance(built, tuple) and len(built) == 3 and isinstance(built[1], dict) and isinstance(built[2], dict):
@@ -444,7 +466,7 @@ def verify_contract(c: Contract, *, only_case=None):
                     if isinstance(cond, (Assumed, ForAll)):
                         continue  # quantified clauses are built into the harness arrays (sym.array(constraint=...))
                     e.assume(cond if not isinstance(cond, SBool) else cond.t)
-            if e.path_id == 0:
+            if e.path_id == 0 and not tag:
                 e.satisfiable("requires satisfiable (vacuity guard)")
             exc = None
             res = None
@@ -471,12 +493,12 @@ def verify_contract(c: Contract, *, only_case=None):
                 cnd = cnd.t if isinstance(cnd, SBool) else cnd
                 if exc is not None and isinstance(exc, exc_t) and not matched:
                     matched = True
-                    e.prove(f"raises {exc_t.__name__} only under the documented condition", cnd, kind="raises")
+                    e.prove(f"{tag}raises {exc_t.__name__} only under the documented condition", cnd, kind="raises")
                 elif exc is None:
-                    e.prove(f"documented {exc_t.__name__} condition is false on the returning path", smt.bnot(cnd), kind="raises")
+                    e.prove(f"{tag}documented {exc_t.__name__} condition is false on the returning path", smt.bnot(cnd), kind="raises")
             if exc is not None and not matched:
-                ob = e.prove(f"unexpected {type(exc).__name__}: {str(exc)[:120]}", False, kind="raises")
-                return
+                e.prove(f"{tag}unexpected {type(exc).__name__}: {str(exc)[:120]}", False, kind="raises")
+                return False
             if exc is None:
                 if c.spec is not None:
                     with engine.no_div_guard():
@@ -484,14 +506,15 @@ def verify_contract(c: Contract, *, only_case=None):
                     if "apply" in ctx:
                         # higher-order result: the returned function is applied to symbolic arguments (under the
                         # shim, with the loop rules of the case) and compared with the spec function's value
-                        e.prove("result is callable", callable(res), kind="ensures")
+                        e.prove(f"{tag}result is callable", callable(res), kind="ensures")
                         with shimmed(), stubbed(except_for={c.qualname} | c.inline), _ops.scan_rules(*ctx.get("apply_scan_rules", [])):
                             res = res(*ctx["apply"])
                         with engine.no_div_guard():
                             exp = exp(*ctx["apply"])
-                    compare(e, "result", res, exp)
-                if c.post is not None:
+                    compare(e, f"{tag}result", res, exp)
+                if c.post is not None and not tag:
                     c.post(e, res, *bargs, **bkw)
+            return True
         eng.run(harness)
         engines.append(eng)
     return engines
